@@ -1013,12 +1013,16 @@ impl<Writer: Write> Muxer<Writer> {
         match self.video_track.codec {
             VideoCodec::H264 => {
                 // Check for IDR NAL (type 5)
-                let has_idr = AnnexBNalIter::new(data).any(|nal| (nal[0] & 0x1f) == 5);
+                let has_idr =
+                    AnnexBNalIter::new(data).any(|nal| !nal.is_empty() && (nal[0] & 0x1f) == 5);
                 has_idr
             }
             VideoCodec::H265 => {
                 // Check for IDR NAL (type 19-21)
                 let has_idr = AnnexBNalIter::new(data).any(|nal| {
+                    if nal.is_empty() {
+                        return false;
+                    }
                     let nal_type = (nal[0] >> 1) & 0x3f;
                     (19..=21).contains(&nal_type)
                 });
